@@ -2,7 +2,10 @@
   ok  - must be accepted by the front end (and, when `expect` is given, print it),
   bad - must be rejected with at least one error diagnostic (not by a crash).
 Families: (a) one type parameter bound to two different argument types, (b) identity of instantiated
-generic Kombinationen (equal type arguments: one type, in whichever module; different: different types).
+generic Kombinationen (equal type arguments: one type, in whichever module; different: different types),
+(c) the same two questions for a type DEFINITION versus its base type (two different types: `Meter-Vektor2` is not a
+`Zahl-Vektor2`, T cannot be Meter and Zahl at once - exactly like the monomorphic MeterVektor2 / ZahlVektor2) and for a type
+ALIAS versus its target (one type: `Nummer-Vektor2` IS `Zahl-Vektor2`); the ok side uses the alias, the bad side the definition.
 If `ok` is rejected the generator made a mistake: the pair is counted as trivial, never as a violation."""
 import random
 
@@ -248,3 +251,132 @@ def fam_ident_arity(r, two):
     ok = 'Schreibe (nimm (Paar(%s, %s))) auf eine Zeile.\n' % (val(r, a), val(r, b))
     bad = 'Schreibe (nimm (Vektor2(%s, %s))) auf eine Zeile.\n' % (val(r, a), val(r, a))
     return dict(construct='non-generic parameter A-B-Paar given a T-Vektor2 with T=A', ok=split(two, d, ok), bad=split(two, d, bad), expect='1\n')
+
+
+# ------------------------------------------------------------------ (c) type definitions and type aliases as type arguments
+
+# (definition, article acc., article nom., base, alias of the base, article nom. of the alias, alias of the definition, values of the base)
+TDEFS = [('Meter', 'einen', 'Der', 'Zahl', 'Nummer', 'Die', 'Strecke', ['1', '42', '7']),
+         ('Begriff', 'einen', 'Der', 'Text', 'Silbe', 'Die', 'Floskel', ['"x"', '"äö"', '"ab"']),
+         ('Pegel', 'einen', 'Der', 'Kommazahl', 'Quote', 'Die', 'Marke', ['1,5', '0,25'])]
+
+
+class TD:
+    """one definition + aliases; declarations (public in a declaring module) and values"""
+
+    def __init__(self, r, pub):
+        self.d, self.acc, self.nom, self.base, self.al, self.alnom, self.ald, self.vals = r.choice(TDEFS)
+        self.r = r
+        # half of the cases build no value with the constructor (default values only): if two instantiations were wrongly ONE type, a
+        # constructor call of the second would be refused on the ok side as well and the pair would not be judged
+        self.bydefault = r.random() < 0.5
+        p = 'öffentlich ' if pub else ''
+        dl = 'Wir definieren %s %s %sals %s %s.' % (self.acc, self.d, p, ART[self.base][1], self.base)
+        lines = [dl, 'Wir nennen %s %s %sauch eine %s.' % (ART[self.base][1], self.base, p, self.al)]
+        r.shuffle(lines)
+        # the alias of the definition: anywhere after the definition
+        lines.insert(r.randint(lines.index(dl) + 1, len(lines)), 'Wir nennen %s %s %sauch eine %s.' % (self.acc, self.d, p, self.ald))
+        self.decls = '\n'.join(lines) + '\n\n'
+
+    def bv(self):
+        return self.r.choice(self.vals)
+
+    def dv(self):
+        return '(%s als %s)' % (self.bv(), self.d)
+
+    def vek(self, kind, name):
+        """declaration of a Vektor2 variable instantiated with base / alias / definition / alias of the definition"""
+        t = {'base': self.base, 'alias': self.al, 'def': self.d, 'aliasdef': self.ald}[kind]
+        v = (self.bv, self.bv, self.dv, self.dv)[('base', 'alias', 'def', 'aliasdef').index(kind)]
+        if self.bydefault:
+            return 'Der %s-Vektor2 %s ist der Standardwert von einem %s-Vektor2.\n' % (t, name, t)
+        return 'Der %s-Vektor2 %s ist Vektor2(%s, %s).\n' % (t, name, v(), v())
+
+    def shuffled(self, *lines):
+        lines = list(lines)
+        self.r.shuffle(lines)
+        return ''.join(lines)
+
+
+def fam_tdef_ident_assign(r, two):
+    t = TD(r, two)
+    side = r.choice(['base', 'def'])         # the type of the variable assigned to
+    same, other = ('alias', 'def') if side == 'base' else ('aliasdef', r.choice(['base', 'alias']))
+    d = structs(two) + t.decls
+    pre = t.shuffled(t.vek(side, 'fern'), t.vek(same, 'nah'), t.vek(other, 'fremd'))
+    ok = pre + 'Speichere nah in fern.\nSpeichere fern in nah.\nSchreibe "ok" auf eine Zeile.\n'
+    bad = pre + 'Speichere fremd in fern.\n'
+    return dict(construct='assignment D-Vektor2 / B-Vektor2 with D a type definition of B (%s := %s)' % (side, other), ok=split(two, d, ok), bad=split(two, d, bad), expect='ok\n')
+
+
+def fam_tdef_ident_param(r, two):
+    t = TD(r, two)
+    side = r.choice(['base', 'def'])
+    same, other = ('alias', 'def') if side == 'base' else ('aliasdef', r.choice(['base', 'alias']))
+    pt = t.base if side == 'base' else t.d
+    d = structs(two) + t.decls + ('Die %sFunktion nimm mit dem Parameter v vom Typ %s-Vektor2, gibt eine Zahl zurück, macht:\n\tGib 1 zurück.\nUnd kann so benutzt werden:\n\t"nimm <v>"\n\n' % (
+        'öffentliche ' if two else '', pt))
+    pre = t.shuffled(t.vek(same, 'nah'), t.vek(other, 'fremd'))
+    ok = pre + 'Schreibe (nimm nah) auf eine Zeile.\n'
+    bad = pre + 'Schreibe (nimm fremd) auf eine Zeile.\n'
+    return dict(construct='non-generic parameter %s-Vektor2 given a %s-Vektor2 (type definition vs base)' % (side, other), ok=split(two, d, ok), bad=split(two, d, bad), expect='1\n')
+
+
+def fam_tdef_ident_list(r, two):
+    t = TD(r, two)
+    d = structs(two) + t.decls
+    pre = t.shuffled(t.vek('base', 'eins'), t.vek('alias', 'nah'), t.vek('def', 'fremd'))
+    ok = pre + 'Die %s-Vektor2 Liste beide ist eine Liste, die aus eins, nah besteht.\nSchreibe (die Länge von beide) auf eine Zeile.\n' % t.base
+    bad = pre + 'Die %s-Vektor2 Liste beide ist eine Liste, die aus eins, fremd besteht.\n' % t.base
+    return dict(construct='list of B-Vektor2 with an element D-Vektor2 (D a type definition of B)', ok=split(two, d, ok), bad=split(two, d, bad), expect='2\n')
+
+
+def fam_tdef_ident_compare(r, two):
+    t = TD(r, two)
+    d = structs(two) + t.decls
+    pre = t.shuffled(t.vek('base', 'eins'), t.vek('alias', 'nah'), t.vek('def', 'fremd'))
+    ok = pre + 'Schreibe (nah ungleich nah ist) auf eine Zeile.\nWenn eins gleich nah ist, dann:\n\tSchreibe "g" auf eine Zeile.\nSonst:\n\tSchreibe "g" auf eine Zeile.\n'
+    bad = pre + 'Schreibe (fremd gleich eins ist) auf eine Zeile.\n'
+    return dict(construct='comparison D-Vektor2 gleich B-Vektor2 (D a type definition of B)', ok=split(two, d, ok), bad=split(two, d, bad), expect='falsch\ng\n')
+
+
+def fam_tdef_bind_TT(r, two):
+    t = TD(r, two)
+    d = t.decls + gfunc(two, 'wähle', [('x', 'T'), ('y', 'T')], 'ein T', ['Gib x zurück.'], 'wähle <x> oder <y>')
+    pre = '%s %s al ist %s.\n' % (t.alnom, t.al, t.bv())
+    if r.random() < 0.5:
+        ok = pre + decl(t.base, 'e', '(wähle %s oder al)' % t.bv()) + 'Schreibe "ok" auf eine Zeile.\n'
+        bad = pre + 'wähle %s oder %s.\n' % (t.bv(), t.dv())
+    else:
+        ok = pre + decl(t.base, 'e', '(wähle al oder %s)' % t.bv()) + 'Schreibe "ok" auf eine Zeile.\n'
+        bad = pre + 'wähle %s oder al.\n' % t.dv()
+    return dict(construct='f(T, T) called with a type definition and its base', ok=split(two, d, ok), bad=split(two, d, bad), expect='ok\n')
+
+
+def fam_tdef_bind_struct_arg(r, two):
+    t = TD(r, two)
+    d = structs(two) + t.decls + gfunc(two, 'setze', [('v', 'T-Vektor2'), ('y', 'T')], 'einen T-Vektor2', ['Gib Vektor2((vx von v), y) zurück.'], 'setze <y> in <v>')
+    pre = t.shuffled(t.vek('alias', 'nah'), t.vek('def', 'fremd'), t.vek('base', 'eins'))
+    ok = pre + 'Der %s-Vektor2 erg ist setze %s in nah.\nSchreibe "ok" auf eine Zeile.\n' % (t.base, t.bv())
+    bad = pre + r.choice(['setze %s in fremd.\n' % t.bv(), 'setze %s in eins.\n' % t.dv(), 'setze %s in nah.\n' % t.dv()])
+    return dict(construct='f(T-Vektor2, T) called with a type definition on one side and its base on the other', ok=split(two, d, ok), bad=split(two, d, bad), expect='ok\n')
+
+
+def fam_tdef_bind_refs(r, two):
+    """the demo of the seeded defect: T-Vektor2 Referenz twice"""
+    t = TD(r, two)
+    d = structs(two) + t.decls + gfunc(two, 'tausche', [('x', 'T-Vektor2 Referenz'), ('y', 'T-Vektor2 Referenz')], 'nichts',
+                                       ['Das T tmp ist vx von x.', 'Speichere vx von y in vx von x.', 'Speichere tmp in vx von y.'], 'tausche <x> mit <y>')
+    pre = t.shuffled(t.vek('alias', 'nah'), t.vek('def', 'fremd'), t.vek('base', 'eins'))
+    ok = pre + 'tausche eins mit nah.\ntausche nah mit eins.\nSchreibe "ok" auf eine Zeile.\n'
+    bad = pre + r.choice(['tausche eins mit fremd.\n', 'tausche fremd mit nah.\n'])
+    return dict(construct='f(T-Vektor2 Referenz, T-Vektor2 Referenz) called with (B-Vektor2, D-Vektor2), D a type definition of B', ok=split(two, d, ok), bad=split(two, d, bad), expect='ok\n')
+
+
+def fam_tdef_ident_generic_result(r, two):
+    t = TD(r, two)
+    d = structs(two) + t.decls + gfunc(two, 'doppel', [('x', 'T')], 'einen T-Vektor2', ['Gib Vektor2(x, x) zurück.'], 'doppel <x>')
+    pre = '%s %s al ist %s.\n' % (t.alnom, t.al, t.bv())
+    ok = pre + 'Der %s-Vektor2 v ist doppel al.\nDer %s-Vektor2 w ist doppel %s.\nSpeichere v in w.\nSpeichere w in v.\nSchreibe "ok" auf eine Zeile.\n' % (t.base, t.al, t.bv())
+    bad = pre + r.choice(['Der %s-Vektor2 v ist doppel %s.\n' % (t.base, t.dv()), 'Der %s-Vektor2 v ist doppel al.\n' % t.d, 'Der %s-Vektor2 v ist doppel %s.\n' % (t.al, t.dv())])
+    return dict(construct='f(T):T-Vektor2 with T a type definition used as the instantiation with its base (or the reverse)', ok=split(two, d, ok), bad=split(two, d, bad), expect='ok\n')
